@@ -1126,9 +1126,7 @@ theorem loopRead_pkt (s : S) (p : RxPkt) (ok : Bool) (c : Nat) (hs : s.sock = so
     · exact Low.trans0 (by low_upd) (loopRcHandle_low _ _)
     · split
       · low_upd
-      · split
-        · split <;> low_upd
-        · low_upd
+      · split <;> low_upd
 
 theorem loopRead_nopkt (s : S) (item : RxItem) (ok : Bool) (h : s.sock = none ∨ ∀ p, item ≠ .pkt p) :
     Low [] s (s.loopRead item ok).1 := by
